@@ -1003,3 +1003,51 @@ func sigKey(s string) string {
 	}
 	return fmt.Sprintf("%s#%08x", trunc(v, 40), h)
 }
+
+// loopExits lists the edges that leave the natural loop of header h from a
+// block other than h itself, except edges into a block that returns a non-nil error.
+func loopExits(h *ssa.BasicBlock, allowErrorReturn bool) []string {
+	body := map[*ssa.BasicBlock]bool{h: true}
+	for _, b := range h.Parent().Blocks {
+		if b != h && h.Dominates(b) && (b == h || reachableFrom(b, nil)[h]) {
+			body[b] = true
+		}
+	}
+	var out []string
+	for b := range body {
+		for _, su := range b.Succs {
+			if body[su] || b == h {
+				continue
+			}
+			if allowErrorReturn {
+				if ret, ok := su.Instrs[len(su.Instrs)-1].(*ssa.Return); ok && len(ret.Results) > 0 {
+					last := ret.Results[len(ret.Results)-1]
+					if types.Identical(last.Type(), types.Universe.Lookup("error").Type()) && !isNilConst(resolveRet(last, su)) {
+						continue
+					}
+				}
+			}
+			out = append(out, fmt.Sprintf("block %d (%s) -> block %d (%s)", b.Index, b.Comment, su.Index, su.Comment))
+		}
+	}
+	sort.Strings(out)
+	return out
+}
+
+// resolveRet resolves a defer-spilled result (load of a local) to the value stored in the same block.
+func resolveRet(v ssa.Value, b *ssa.BasicBlock) ssa.Value {
+	if u, ok := v.(*ssa.UnOp); ok && u.Op == token.MUL {
+		if a, ok := u.X.(*ssa.Alloc); ok {
+			var last ssa.Value
+			for _, in := range b.Instrs {
+				if st, ok := in.(*ssa.Store); ok && st.Addr == ssa.Value(a) {
+					last = st.Val
+				}
+			}
+			if last != nil {
+				return last
+			}
+		}
+	}
+	return v
+}
